@@ -4,6 +4,7 @@ CONSTANTS
   Modes = {"insert", "append"}
   OwnsAllSet = {FALSE}
   Rich = 2
+  WithMaps = FALSE
   StartExtras = {{}, {"cali-a"}, {"cali-old", "other"}, {"cali-a", "cali-old", "felix-old", "other"}}
   SimLen = 16
   Composite = FALSE
